@@ -356,7 +356,14 @@ func (w *World) RandomOp(o HistOpts) {
 			if w.pick(2) == 0 {
 				w.ValJail(v)
 			} else {
-				w.ValUnjail(v)
+				// released, but not back in the bonded set before the end of this block: messages of the same block
+				// meet a validator that is neither bonded nor jailed
+				if r := w.ValUnjail(v); r.Ok {
+					for _, u := range w.Users {
+						w.WithdrawTip(u, v)
+					}
+					w.Delegate(w.user(), v, w.amount())
+				}
 			}
 		}})
 	}
@@ -894,6 +901,9 @@ func (w *World) BridgeStory(o HistOpts) {
 		w.block(o, 2*sec)
 	}
 	claimer := w.user()
+	if w.pick(2) == 0 {
+		claimer = rcpt // the recipient claims its own deposit (tip and amount go to the same account)
+	}
 	qid := utils.QueryIDFromData(w.QData[dep])
 	idx := uint64(0)
 	if _, _, err := w.App.OracleKeeper.GetAggregateByIndex(w.Ctx, qid, 1); err == nil && w.pick(2) == 0 {
